@@ -9,9 +9,9 @@ func init() {
 			"(3) rotation closes the old log on every success path after the pointer swap and Manager.Close closes the current log; " +
 			"(4) atomic publication of SSTables: in Writer.Finish all writes precede Sync, Sync precedes the rename (FinalizeFile), the file is created under the temporary name, loaders skip non-.sst files, flush publishes the reader only after Finish succeeded; " +
 			"(5) destructive file operations on database files are exactly the classified sites; " +
-			"(6) recovery hands every recovered memtable to the read path and restores the sequence counter from the replay maximum.",
+			"(6) recovery hands every recovered memtable to the read path and restores the sequence counter from the replay maximum; (7) the newest log file is reused for appending only behind a clean entry-boundary scan (so that writes acknowledged after a recovery are themselves recoverable).",
 		NotDecided: "the state at arbitrary stop instants, torn writes, directory fsync, repeated crash/recover cycles — all need execution under fault injection.",
-		Rules:      []func(*Ctx, *Reporter){ruleStWriteAhead, ruleWalSyncBeforeAck, ruleStRotation, ruleStRecovery, ruleSstFinish, ruleDestructiveOps, ruleStFlushPublish},
+		Rules:      []func(*Ctx, *Reporter){ruleStWriteAhead, ruleWalSyncBeforeAck, ruleStRotation, ruleStRecovery, ruleSstFinish, ruleDestructiveOps, ruleStFlushPublish, ruleReuseValidatesTail},
 	})
 	register(&PropertyDef{
 		ID: "C03",
